@@ -14,7 +14,8 @@ EXPLANATION = (
     "apex SOA/NS, the ANY/ANY retain predicate keeps apex SOA/NS, class NONE delegates to RecordSet::remove whose SOA and "
     "last-NS rules are guards, upsert inserts only after the CNAME-exclusivity scan returned false, SOA replacement in "
     "RecordSet::insert is decided by SerialNumber's (RFC 1982) ordering; every per-record zone mutation is unconditional on "
-    "the accumulated `updated` flag; (G2) the serial bump / re-signing is reached iff updated && auto_signing_and_increment.")
+    "the accumulated `updated` flag; (G2) the serial bump / re-signing is reached iff updated && auto_signing_and_increment; (S1) InnerInMemory::upsert - the only changed-signal update_records has "
+    "for added RRs - returns true exactly when the modified RRset was stored back into the zone map.")
 NOT_DECIDED = "RRset contents after arbitrary histories; 'exactly one SOA' as a global invariant (only its local guards)."
 ASSUMPTIONS = ["FULL feature configuration (sqlite + dnssec-ring)", "BTreeMap API semantics"]
 
